@@ -219,6 +219,15 @@ func NewReporter(prop, tier string, seed uint64) (*Reporter, error) {
 		KnownHits: map[string]int{}, seenSig: map[string]bool{}}, nil
 }
 
+// CleanReplays removes replay files of earlier runs of this property and seed
+// (called by a check run, never by a replay).
+func (r *Reporter) CleanReplays() {
+	old, _ := filepath.Glob(filepath.Join(VerifDir(), "replays", fmt.Sprintf("%s-%d-*.json", r.Prop, r.SeedV)))
+	for _, f := range old {
+		os.Remove(f)
+	}
+}
+
 // Report registers a violation. replay is any JSON-serialisable description
 // sufficient to re-execute it. Violations with a signature already reported in
 // this run are counted but not written again.
